@@ -12,6 +12,7 @@ import (
 	"github.com/sirupsen/logrus"
 
 	"hop.computer/hop/common"
+	"hop.computer/hop/pkg/verifhook"
 	"hop.computer/hop/transport"
 )
 
@@ -146,6 +147,7 @@ func newMuxer(msgConn transport.MsgConn, timeout time.Duration, isServer bool, l
 // reapTube is called in a goroutine whenever a tube is created or accepted.
 func (m *Muxer) reapTube(t Tube) {
 	t.WaitForClose()
+	verifhook.At("tubes.Muxer.reap.closed")
 
 	// This prevents tubes IDs from being reused while the remote peer is waiting in lastAck.
 	if r, ok := t.(*Reliable); ok && t.GetID()%2 == m.idParity {
@@ -470,6 +472,7 @@ func (m *Muxer) receiver() {
 		if err != nil {
 			return
 		}
+		verifhook.At("tubes.Muxer.receiver.dispatch")
 		var tube Tube
 		tube, ok := m.getTube(frame.flags.REL, frame.tubeID)
 		if !ok {
@@ -526,6 +529,7 @@ func closeTubeHelper(t Tube, log *logrus.Entry, wg *sync.WaitGroup) {
 // owner to publish its result. Stop returns the sender error followed by the
 // receiver error.
 func (m *Muxer) Stop() (sendErr error, recvErr error) {
+	verifhook.At("tubes.Muxer.Stop.enter")
 	// This error indicates that the muxer got an ICMP Destination Unreachable packet.
 	// This happens when the other side of the connetion has been closed, so we
 	// can ignore it.
@@ -563,9 +567,11 @@ func (m *Muxer) Stop() (sendErr error, recvErr error) {
 
 	m.state.Store(muxerStopping)
 	m.m.Unlock()
+	verifhook.At("tubes.Muxer.Stop.stopping")
 
 	// If tubes do not correctly close after some time, assume they never will and force them to close.
 	time.AfterFunc(muxerTimeout, func() {
+		verifhook.At("tubes.Muxer.Stop.forceTimer")
 		if m.state.Load() == muxerStopped {
 			return
 		}
@@ -588,11 +594,13 @@ func (m *Muxer) Stop() (sendErr error, recvErr error) {
 
 	// Wait for all tubes to close
 	wg.Wait()
+	verifhook.At("tubes.Muxer.Stop.tubesClosed")
 	m.state.Store(muxerStopped)
 
 	close(m.prioritySendQueue)
 	close(m.sendQueue)
 	close(m.tubeQueue)
+	verifhook.At("tubes.Muxer.Stop.queuesClosed")
 
 	// Drain every queued tube frame before closing the transport. If a transport
 	// write is stuck, Close must interrupt it so shutdown cannot deadlock.
